@@ -1,9 +1,93 @@
 import KG.Base.Json
-/-! Driver entry points for property C14 (filled in by the C14 model). -/
-namespace KG.Driver.C14
-open Lean
+import KG.Driver.C03
+/-!
+Driver entry points for C14 (round-robin).
 
-/-- `handle method args`: `none` when the method is unknown. -/
-def handle (_m : String) (_a : Json) : Option (Except String Json) := none
+`C14.run {setup:[C03 harness ops…], lb:[{key,c}…], uss:[[name…]…], impl:[pop outputs…]?, multiset:bool}` — the endpoint map is
+the one the C03 model reaches on `setup` (with quiescence after every op); the cursors are then overwritten with `lb`; the
+picks `uss` are run sequentially (`popMany`).  The reply carries the model's results and final cursors and, for the results
+`impl` observed from the implementation, the verdict of the counting judges `strictOK` / `boundedOK` of `KG.Spec.Endpoints`
+(the statements of `c14_strict` / `c14_bounded`).
+-/
+namespace KG.Driver.C14
+open Lean KG KG.Model.Endpoints KG.Spec.Endpoints KG.Driver.C03
+
+def decodeKey (j : Json) : Except String Key := do
+  (← j.getArr?).toList.mapM fun x => do pure (← J.getHex x "n", ← J.getNat x "gen")
+
+def runSetup (ops : Array Json) : Except String State := do
+  let mut s := init
+  for j in ops do
+    let h ← decodeOp s j
+    let r := step s h.op
+    s := (quiesce h.up (fuelOf r.1) r.1 []).1
+  pure s
+
+def dedupKeys : List Key → List Key
+  | [] => []
+  | k :: ks => k :: (dedupKeys ks).filter (fun k' => k' != k)
+
+def idLt (a b : EName × Nat) : Bool := a.1.toHex < b.1.toHex || (a.1 == b.1 && a.2 < b.2)
+
+/-- the ready *set* of an ordered ready list -/
+def canonSet (κ : Key) : Key := (κ.toArray.qsort idLt).toList
+
+structure GroupVerdict where
+  members : Key
+  k : Nat
+  orders : Nat
+  n : Nat
+  applicable : Bool
+  counts : List ((EName × Nat) × Nat)
+  bad : Option ((EName × Nat) × Nat)
+  strays : Bool       -- a pick of this group answered something that is not a ready member
+
+/-- judge the picks that were made on one ready set: `keys`/`res` are the ordered ready lists and the results of those picks -/
+def judgeGroup (lb : List (Key × Nat)) (members : Key) (keys : List Key) (res : List PopOut) : GroupVerdict :=
+  let K := dedupKeys keys
+  let k := members.length
+  let N := keys.length
+  let nodup := decide members.Nodup
+  let noWrap := K.all fun κ => decide (lbGet lb κ + N < 2 ^ 64)
+  let applicable := nodup && noWrap && decide (2 ≤ k)
+  let counts := members.map fun e => (e, countPicked e.1 e.2 res)
+  let bad := if !applicable then none else
+    counts.find? fun p => !(boundedOK k K.length N p.2) || (K.length == 1 && !(strictOK k N p.2))
+  let strays := res.any fun x => match x with
+    | .picked n g => !members.contains (n, g)
+    | _ => decide (1 ≤ k)
+  { members := members, k := k, orders := K.length, n := N, applicable := applicable, counts := counts, bad := bad, strays := strays }
+
+def encodeId (e : EName × Nat) : Json := J.obj [("n", J.hex e.1), ("gen", J.nat e.2)]
+
+def doRun (a : Json) : Except String Json := do
+  let s ← runSetup (← J.getArr a "setup")
+  let lb ← (← J.getArr a "lb").toList.mapM fun x => do pure (← decodeKey (← J.getObj x "key"), ← J.getNat x "c")
+  let uss ← (← J.getArr a "uss").toList.mapM fun x => do (← x.getArr?).toList.mapM J.asHex
+  let r := popMany s.eps lb uss
+  let keys := uss.map fun us => (readyList s.eps us).map EP.id
+  -- judge the implementation's results (or the model's own when none are given), pick i ↔ result i
+  let implRes ← match J.optObj a "impl" with
+    | some i => (← i.getArr?).toList.mapM decodePop
+    | none => pure r.1
+  let sets := dedupKeys (keys.map canonSet)
+  let pairs := keys.zip implRes
+  let verdicts := sets.map fun m =>
+    let mine := pairs.filter fun p => canonSet p.1 == m
+    judgeGroup lb m (mine.map (·.1)) (mine.map (·.2))
+  pure <| J.obj [
+    ("results", Json.arr (r.1.map encodePop).toArray), ("lb", encodeLb r.2),
+    ("groups", Json.arr (verdicts.map fun v => J.obj [
+      ("members", Json.arr (v.members.map encodeId).toArray), ("k", J.nat v.k), ("orders", J.nat v.orders), ("n", J.nat v.n),
+      ("applicable", J.bool v.applicable), ("strays", J.bool v.strays),
+      ("counts", Json.arr (v.counts.map fun p => J.obj [("id", encodeId p.1), ("count", J.nat p.2)]).toArray),
+      ("bad", match v.bad with
+        | some p => J.obj [("id", encodeId p.1), ("count", J.nat p.2)]
+        | none => Json.null)]).toArray)]
+
+def handle (m : String) (a : Json) : Option (Except String Json) :=
+  match m with
+  | "run" => some (doRun a)
+  | _ => none
 
 end KG.Driver.C14
